@@ -64,7 +64,8 @@ const SWITCHES: [&str; 7] = ["pushdown_filters", "reorder_filters", "enable_page
 
 async fn session(cfg_bits: &Value, files: &[Vec<u8>], tp: usize, declare_order: bool) -> SessionContext {
     let mut cfg = SessionConfig::new().with_target_partitions(tp).with_batch_size(3)
-        .set_bool("datafusion.execution.collect_statistics", cfg_bits["collect_statistics"].as_bool().unwrap_or(true));
+        .set_bool("datafusion.execution.collect_statistics", cfg_bits["collect_statistics"].as_bool().unwrap_or(true))
+        .set_bool("datafusion.execution.enable_file_stream_work_stealing", cfg_bits["work_stealing"].as_bool().unwrap_or(true));
     for s in SWITCHES {
         cfg = cfg.set_bool(&format!("datafusion.execution.parquet.{s}"), cfg_bits[s].as_bool().unwrap_or(false));
     }
